@@ -873,12 +873,15 @@ def tdmKvn (m : Tdm) : R (List Line) := do
       [.word "META_STOP", .blank, .word "DATA_START"] ++ obs ++ [.word "DATA_STOP", .blank]
   pure <| header "CCSDS_TDM_VERS" "1.0" ++ [.blank] ++ segs.flatten
 
+/-- one `observation` element -/
+def obsXml (o : Obs) : R Elem := do
+  pure (Elem.node "observation" [Elem.leaf "EPOCH" [] o.epoch, Elem.leaf (← tdmName o.kind) [] o.value])
+
 /-- `tdm._dumps_xml` -/
 def tdmXml (m : Tdm) : R Elem := do
   if (tdmSets m).any (fun ps => (dedup ps.1).length > 9) then .error .valueError
   let segs ← (tdmSets m).mapM fun (path, set) => do
-    let obs ← set.mapM fun o => do
-      pure (Elem.node "observation" [Elem.leaf "EPOCH" [] o.epoch, Elem.leaf (← tdmName o.kind) [] o.value])
+    let obs ← set.mapM obsXml
     pure <| Elem.node "segment" [.node "metadata" ((tdmMeta m.scale path set).map fun (k, v) => Elem.leaf k [] v), .node "data" obs]
   pure <| .node "tdm" [headerXml, .node "body" segs]
 
